@@ -320,6 +320,12 @@ pub fn traces() -> Vec<(String, TowerCfg, Vec<Ev>)> {
         ("reorg-and-restart".into(), cfg, vec![Ev::Register(1), add(1, 1, Blob::Valid), mine(vec![TxName::D(1)]), Ev::MineP(MineSel::Mempool), Ev::ReorgP { depth: 1, how: Replacement::Unconfirm }, Ev::Restart, Ev::MineP(MineSel::Mempool)]),
         ("multi-block-poll-with-invalid-and-refused".into(), cfg, vec![Ev::Register(1), Ev::Register(2), add(1, 1, Blob::Raw(40)), add(2, 1, Blob::Bad), add(1, 2, Blob::Valid), Ev::Mine(MineSel::Txs(vec![TxName::D(1)])), Ev::Mine(MineSel::Txs(vec![TxName::D(2)])), Ev::Poll]),
         ("expiry-and-purge".into(), TowerCfg { slots: 2, duration: 2, grace: 1, txindex: false }, vec![Ev::Register(1), add(1, 1, Blob::Valid), Ev::MineP(MineSel::Empty), Ev::Register(1), Ev::AdvanceBulk(2), add(1, 2, Blob::Valid), Ev::AdvanceBulk(3), Ev::Register(1)]),
+        // what the tower rebuilds at start-up (locator cache of the last 6 blocks, tx index of the last 100) must
+        // be what it would hold had it never gone down: the dispute is in the very last block seen before
+        // the shutdown, resp. the oldest block of the window, resp. just outside
+        ("restart-then-late-appointment-for-the-last-block-seen".into(), cfg, vec![Ev::Register(1), mine(vec![TxName::D(1)]), Ev::Restart, add(1, 1, Blob::Valid)]),
+        ("restart-then-late-appointment-at-the-window-edge".into(), cfg, vec![Ev::Register(1), Ev::Register(2), mine(vec![TxName::D(1)]), Ev::AdvanceBulk(5), Ev::Restart, add(1, 1, Blob::Valid), Ev::MineP(MineSel::Empty), add(2, 1, Blob::Valid)]),
+        ("restart-shortly-before-completion".into(), cfg, vec![Ev::Register(1), add(1, 1, Blob::Valid), mine(vec![TxName::D(1)]), Ev::MineP(MineSel::Mempool), Ev::AdvanceBulk(97), Ev::Restart, Ev::MineP(MineSel::Empty), Ev::MineP(MineSel::Empty), Ev::MineP(MineSel::Empty)]),
         ("completion-after-100".into(), cfg, vec![Ev::Register(1), add(1, 1, Blob::Valid), mine(vec![TxName::D(1)]), Ev::MineP(MineSel::Mempool), Ev::AdvanceBulk(99), Ev::MineP(MineSel::Empty), Ev::MineP(MineSel::Empty)]),
     ]
 }
@@ -331,7 +337,11 @@ pub fn run_trace(name: &str, cfg: &TowerCfg, history: &[Ev]) -> Result<(), Strin
     let mut w = World::new(*cfg);
     w.boot().map_err(|e| format!("in-process boot: {e}"))?;
     let mut replies_a = Vec::new();
-    for ev in history {
+    let mut steps_a: Vec<(usize, View)> = Vec::new();
+    // states are compared after every event both sides have fully digested (not after a block the
+    // tower has not been made to poll yet)
+    let synced = |ev: &Ev| !matches!(ev, Ev::Mine(_) | Ev::Reorg { .. } | Ev::External(_));
+    for (i, ev) in history.iter().enumerate() {
         let o = w.apply(ev);
         if let Some(p) = o.panic {
             return Err(format!("in-process run panicked at {ev:?}: {p}"));
@@ -341,6 +351,9 @@ pub fn run_trace(name: &str, cfg: &TowerCfg, history: &[Ev]) -> Result<(), Strin
                 crate::world::ApiOutcome::Register(r) => r.map(|x| format!("reg:{}:{}:{}", x.available_slots, x.subscription_start, x.subscription_expiry)).unwrap_or_else(|e| format!("err:{:?}", e.code)),
                 crate::world::ApiOutcome::Add(r) => r.map(|x| format!("add:{}:{}", x.start_block, x.available_slots)).unwrap_or_else(|e| format!("err:{:?}", e.code)),
             });
+        }
+        if synced(ev) {
+            steps_a.push((i, view(&w.db_view(), &w.env, replies_a.clone())));
         }
     }
     let va = view(&w.db_view(), &w.env, replies_a);
@@ -360,7 +373,11 @@ pub fn run_trace(name: &str, cfg: &TowerCfg, history: &[Ev]) -> Result<(), Strin
             (s, c) => format!("err:http{s}:{c:?}"),
         }
     };
-    for ev in history {
+    let mut steps_b: Vec<(usize, View)> = Vec::new();
+    for (i, ev) in history.iter().enumerate() {
+        if i > 0 && synced(&history[i - 1]) {
+            steps_b.push((i - 1, view(&DbView::read(&t.db), &env, replies_b.clone())));
+        }
         match ev {
             Ev::Register(u) => {
                 let (s, v) = t.post("/register", json!({"user_id": user_keys(*u).hex()})).ok_or("no reply to register")?;
@@ -427,6 +444,15 @@ pub fn run_trace(name: &str, cfg: &TowerCfg, history: &[Ev]) -> Result<(), Strin
             }
         }
     }
+    if history.last().map_or(false, synced) {
+        steps_b.push((history.len() - 1, view(&DbView::read(&t.db), &env, replies_b.clone())));
+    }
+    for ((i, a), (j, b)) in steps_a.iter().zip(steps_b.iter()) {
+        assert_eq!(i, j);
+        if a != b {
+            return Err(format!("[{name}] after step {i} ({:?}): harness {a:?} vs teosd {b:?}", history[*i]));
+        }
+    }
     let vb = view(&DbView::read(&t.db), &env, replies_b);
     if va != vb {
         let what = if va.replies != vb.replies {
@@ -447,10 +473,19 @@ pub fn run_trace(name: &str, cfg: &TowerCfg, history: &[Ev]) -> Result<(), Strin
 
 /// Runs all conformance traces (in parallel). Returns (validated, failures).
 pub fn run_all(limit: usize) -> (u64, Vec<(String, String)>) {
+    run_where(limit, |_| true)
+}
+
+/// Only the histories in which the tower is restarted (C03: what a restarted tower rebuilds).
+pub fn run_restarts() -> (u64, Vec<(String, String)>) {
+    run_where(usize::MAX, |h| h.contains(&Ev::Restart))
+}
+
+fn run_where(limit: usize, keep: impl Fn(&[Ev]) -> bool) -> (u64, Vec<(String, String)>) {
     if !teosd_binary().exists() {
         return (0, vec![("machinery".into(), format!("{} missing", teosd_binary().display()))]);
     }
-    let ts: Vec<_> = traces().into_iter().take(limit).collect();
+    let ts: Vec<_> = traces().into_iter().filter(|(_, _, h)| keep(h)).take(limit).collect();
     let (res, _) = crate::explore::par_map(&ts, None, |_, (name, cfg, h)| run_trace(name, cfg, h));
     let mut ok = 0;
     let mut bad = Vec::new();
